@@ -125,33 +125,7 @@ def run(ck):
     ck.judge(not probs, "C05.2", short(filt), wf, "one record per query id: the highest-confidence one, in query-id order",
              found="; ".join(probs) if probs else T.show(ft)[:200],
              required="groupby(queryId) o sort(queryId asc) o sort(confidence desc), first of each group")
-    # repo-wide: groupby over an explicit sorted(...) uses the same key
-    n_gb = 0
-    for fn in p.nontest_functions():
-        if not fn.module.name.startswith("src.") or fn.is_lambda or "diagnostic" in fn.module.name:
-            continue
-        src_text = fn.module.source
-        if "groupby" not in src_text:
-            continue
-        seen = set()
-        for pa in explore(ck, fn, unroll=(0, 1), max_paths=3000):
-            for t, facts, node, kind in path_terms(pa):
-                for gb, inp, k in groupby_sites(t):
-                    s = sort_spec(inp)
-                    if s is None or gb in seen:
-                        continue
-                    seen.add(gb)
-                    n_gb += 1
-                    _, sk, desc = s
-                    same = (sk == k) or (key_path(ctx, sk) is not None and key_path(ctx, sk) == key_path(ctx, k))
-                    kt = key_tuple(ctx, sk)
-                    if not same and kt and desc is False and kt[0] == key_path(ctx, k):
-                        same = True      # sorted by a tuple whose leading component is the group key
-                    ck.judge(same, "C05.2", f"{short(fn)}:groupby-key", where(fn, node),
-                             "itertools.groupby runs over a list sorted by the same key (otherwise one id forms several groups)",
-                             found=f"sorted by {T.show(sk) if sk else None}, grouped by {T.show(k) if k else None}",
-                             required="identical keys")
-    ck.floor("C05.2 groupby-over-sorted sites", n_gb, 4)
+    groupby_inputs_sorted(ck, "C05.2")
 
     # ---- C05.3 winner
     fn_exec, call, mapname, worker_lambda, worker = parallel_map_site(ctx)
@@ -171,9 +145,23 @@ def run(ck):
         raise AnalysisError(f"{bfn.where}: selection function expected to have a single return")
     sel = as_arg_extreme(ctx, brets[0].value)
     wb = where(bfn, brets[0].node)
-    if sel is None:
-        raise AnalysisError(f"{wb}: best-candidate selection idiom not recognised: {T.show(brets[0].value)[:200]}")
     bparam = V(bfn.call_params()[0].name)
+    if sel is None:
+        bv = brets[0].value
+        inner = bv
+        if inner[0] == "call" and inner[1] == "next" and inner[2]:
+            inner = inner[2][0]
+            while inner[0] == "call" and inner[1] in ("iter", "list") and len(inner[2]) == 1:
+                inner = inner[2][0]
+        elif inner[0] == "idx" and inner[2][0] == "c":
+            inner = inner[1]
+        if inner == bparam:
+            ck.violation("C05.3", short(bfn), wb, "the candidate reported for a query is taken by its position in the list (seed-peak "
+                         "order), not by its confidence", found=T.show(bv)[:160],
+                         required="ARGMAX(confidence) over the candidates, default None")
+            sel = {"key": ("confidence",), "kind": "max", "input": bparam, "has_default": True, "default": T.NONE, "_reported": True}
+        else:
+            raise AnalysisError(f"{wb}: best-candidate selection idiom not recognised: {T.show(bv)[:200]}")
     probs = []
     if sel["key"] != ("confidence",):
         probs.append(f"selects by {sel['key']}")
@@ -183,7 +171,8 @@ def run(ck):
         probs.append(f"selects from {T.show(sel['input'])[:60]}")
     if not sel["has_default"] or sel["default"] != T.NONE:
         probs.append("no None default for an empty candidate list")
-    ck.judge(not probs, "C05.3", short(bfn), wb, "the reported candidate is the one with the highest confidence",
+    if not sel.get("_reported"):
+      ck.judge(not probs, "C05.3", short(bfn), wb, "the reported candidate is the one with the highest confidence",
              found="; ".join(probs) if probs else T.show(brets[0].value)[:160],
              required="ARGMAX(confidence) over the candidates, default None")
     # the candidates handed over are all rows built from the selected peaks
@@ -224,6 +213,69 @@ def run(ck):
             ck.judge(kp == ("queryId",) and desc is False, "C05.5", "execute[best]:order", w,
                      "rows of mode 'best' are sorted by query id ascending", found=f"key {kp}, descending={desc}",
                      required="key queryId ascending")
+
+
+# groupby sites whose input is deliberately not sorted by the key: (function, reason)
+GROUPBY_EXCEPTIONS = {
+    "AlignmentResultRow.__removeDuplicateQueryPositionsPreservingLastOne":
+        "groups *adjacent* pairs of one query label inside a list ordered by reference position (run-length style, on purpose)",
+    "AlignmentRowComparer.__combineMultipleQuerySources":
+        "diagnostic comparer: groups adjacent pairs of one query label in alignment order (outside the aligner's output path)",
+}
+
+
+def groupby_inputs_sorted(ck, rule, only_functions=None):
+    """Every itertools.groupby in src/ runs over a list that is explicitly sorted by the same key (otherwise one id forms
+    several groups and 'one per key' silently becomes 'one per run')."""
+    ctx = ck.ctx
+    p = ctx.p
+    n_gb = 0
+    for fn in p.nontest_functions():
+        if not fn.module.name.startswith("src.") or fn.is_lambda or "diagnostic.alignment_plot" in fn.module.name \
+                or fn.module.name.startswith("src.diagnostic.plot"):
+            continue
+        if only_functions is not None and short(fn) not in only_functions:
+            continue
+        if "groupby" not in fn.module.source:
+            continue
+        if "groupby" not in ast.unparse(fn.node):
+            continue
+        seen = set()
+        for pa in explore(ck, fn, unroll=(0, 1), max_paths=3000):
+            for t, facts, node, kind in path_terms(pa):
+                for gb, inp, k in groupby_sites(t):
+                    if gb in seen:
+                        continue
+                    seen.add(gb)
+                    n_gb += 1
+                    construct = f"{short(fn)}:groupby-key"
+                    w = where(fn, node)
+                    if short(fn) in GROUPBY_EXCEPTIONS:
+                        ck.ok(rule, construct, w, "frozen exception: " + GROUPBY_EXCEPTIONS[short(fn)])
+                        continue
+                    s = sort_spec(inp)
+                    while s is None and inp[0] == "call" and inp[1] in ("list", "iter", "tuple") and len(inp[2]) == 1:
+                        inp = inp[2][0]
+                        s = sort_spec(inp)
+                    if s is None:
+                        ck.violation(rule, construct, w,
+                                     "itertools.groupby runs over a list that is not sorted by the grouping key: rows of one id "
+                                     "that are not adjacent form several groups (one-per-id / pair-up logic silently breaks "
+                                     "depending on what else is in the list)", found=f"grouping {T.show(inp)[:160]} by {T.show(k)[:60] if k else None}",
+                                     required="groupby(sorted(xs, key=K), K)")
+                        continue
+                    _, sk, desc = s
+                    same = (sk == k) or (key_path(ctx, sk) is not None and key_path(ctx, sk) == key_path(ctx, k))
+                    kt = key_tuple(ctx, sk)
+                    if not same and kt and desc is False and kt[0] == key_path(ctx, k):
+                        same = True      # sorted by a tuple whose leading component is the group key
+                    ck.judge(same, rule, construct, w,
+                             "itertools.groupby runs over a list sorted by the same key (otherwise one id forms several groups)",
+                             found=f"sorted by {T.show(sk) if sk else None}, grouped by {T.show(k) if k else None}",
+                             required="identical keys")
+    if only_functions is None:
+        ck.floor(f"{rule} groupby sites judged", n_gb, 5)
+    return n_gb
 
 
 def seeds(ck, rule):
